@@ -9,6 +9,7 @@
     F3  sfac_render_table (+ sfac_old_printer_fails_on: the defect repaired by fixes/C01_1)
     F4  fvar_render_list, unit_render, size_render, acta_render, stir_render, wght_render, symm_render
     extracted_layout, extracted_overrides, fvar_chunk_pos                   re-checked against the source every run
+    write_keeps_res_lines                                                   '+filename' include files: res lines kept, included lines not written
     roundtrip_content                                                       the per-class laws over a whole file
 -/
 import ShelxModel.C01
@@ -859,6 +860,27 @@ example : normSymm (renderSymm (parseSymm ["Y,".toList, "X,".toList, "-Z+".toLis
 theorem extracted_overrides :
     strOverrides = ["ACTA", "Atom", "FVAR", "FVARs", "Restraints", "SFACTable", "SIZE", "STIR", "SYMM", "SymmCards",
       "UNIT", "WGHT"] := by decide
+
+/-! ### include files -/
+
+/-- **write_keeps_res_lines**: whatever the include files contain — also lines with exactly the text of lines of the
+    res file — the writer emits every (non-empty) line of the res file itself, in order, and nothing else. -/
+theorem write_keeps_res_lines (rs : List (List Char)) (es : List Entry) (h : Spliced rs es) :
+    writeEntries es = rs.filter (· ≠ []) := by
+  induction h with
+  | nil => rfl
+  | res l _ ih =>
+    simp only [writeEntries, List.filter_cons, Bool.not_false, if_true, List.map_cons] at ih ⊢
+    by_cases hl : l = []
+    · simp only [hl, ne_eq, not_true_eq_false, decide_false, Bool.false_eq_true, if_false]; exact ih
+    · simp only [hl, ne_eq, not_false_eq_true, decide_true, if_true, ih]
+  | inc l _ ih =>
+    simp only [writeEntries, List.filter_cons, Bool.not_true, Bool.false_eq_true, if_false] at ih ⊢
+    exact ih
+
+/-- an include file that repeats the text of a res line: both entries have the same text, only one is written -/
+example : writeEntries [⟨false, "EQIV $1 1-x, 1-y, 1-z".toList⟩, ⟨true, "EQIV $1 1-x, 1-y, 1-z".toList⟩, ⟨true, "DFIX 2.8 O1 O1_$1".toList⟩] =
+    ["EQIV $1 1-x, 1-y, 1-z".toList] := by decide +kernel
 
 /-! ### the file -/
 
